@@ -10,7 +10,8 @@ CHECKS = {
         text="For exhaustively enumerated small programs and seeded random typed ASTs nested in every construct/context pair, the real engine's "
              "result stream for a producer of several tagged input stacks is compared (a) with the union of its own results per single input stack "
              "(no model needed) and (b) with a naive state-free reference evaluator written from doc/syntax.rst: multisets always, sequences where "
-             "the documentation fixes the order, presence of diagnostics.  Held on the executions counted in the evidence.",
+             "the documentation fixes the order, presence of diagnostics.  Held on the executions counted in the evidence."
+             " Also: streams in which an operand comes 'the same again' (patterns that compile, that cannot be compiled, that are not strings), and EQUAL input stacks in a row (no unique tag), incl. stacks that are equal once a binder has popped the value they differ in while the program reads that name in conditions.",
         note="Trusts vf/zmodel.py's reading of the documentation (DESIGN.md appendix A) for O1; O2 trusts nothing but the engine's determinism. "
              "Programs whose outcome the documentation leaves open are skipped and counted.",
         design="DESIGN.md 5-C01"),
@@ -32,7 +33,8 @@ CHECKS = {
              "capturing up-values are run on the real engine and compared with a lexical-scoping reference evaluator; every program is also re-run "
              "with all bound identifiers consistently renamed and with {B} apply replaced by the scoped body (results must be identical), and "
              "negative variants (unbound read, read moved out of each kind of scope, rebinding) must be rejected with a message naming the identifier."
-             " Blocks nested up to four deep rebind outer names (by let or as scope parameters) above further nested blocks.",
+             " Blocks nested up to four deep rebind outer names (by let or as scope parameters) above further nested blocks."
+             ' Operands of infix assertions that bind names (each operand is a scope of its own) are generated with their must-be-rejected twins.',
         note="Trusts the scoping rules of doc/syntax.rst as encoded in vf/zmodel.py; names bound inside %( %) splices are not generated (plain context, undocumented scope).",
         design="DESIGN.md 5-C03"),
     "C04": dict(
@@ -42,7 +44,8 @@ CHECKS = {
              "sample DWARF files with DWARF sub-expressions: results(P) must equal results(P ?(E)) plus results(P !(E)) as multisets of whole serialised stacks, "
              "infix forms may only yield stacks of P, `let` and `[E]` must reproduce every P stack unchanged the right number of times; every ?w/!w pair of the "
              "vocabulary (about 970) is applied to 24 operand kinds: unchanged-or-nothing, never both, neither iff a diagnostic."
-             " The assertion forms are also run with binding blocks; positioned values and reads of bound names lie on every stack; operand tuples include overlapping address sets, invalid regular expressions and location expressions repeating an operation.",
+             " The assertion forms are also run with binding blocks; positioned values and reads of bound names lie on every stack; operand tuples include overlapping address sets, invalid regular expressions and location expressions repeating an operation."
+             ' Bodies made of assertions only (some not applicable to the operand), empty and wrapper-only bodies, and lone names bound to blocks that pop, reorder or yield 0/2 times are among the sub-expressions.',
         note="No model; both sides are runs of the engine.  Comparisons use the driver's canonical serialisation (values, domains, positions, DIE identity incl. import route).",
         design="DESIGN.md 5-C04"),
     "C05": dict(
@@ -52,7 +55,8 @@ CHECKS = {
              "levels with deep content), in raw and cooked mode, the engine reports the DIE, its parent, children, root, end of the parent chain, ?root and unit; "
              "Python checks child/parent inverse, root = chain end = ?root, unit entry = entry, unit DIEs = root child*, unit of a DIE lists it, same-route "
              "DIEs identical; the same laws are run in the language and must report no counterexample."
-             " The laws are also run on values that change view on the way (raw made cooked and back), and on forests with header-only units.",
+             " The laws are also run on values that change view on the way (raw made cooked and back), and on forests with header-only units."
+             ' ar archives of sample objects (one Dwarf value made of several modules, supplementary files resolvable) are among the inputs.',
         note="No model; identities come from the driver's serialisation of value_die (offset, ELF image size, raw/cooked, import chain).",
         design="DESIGN.md 5-C05"),
     "C06": dict(
@@ -99,7 +103,8 @@ CHECKS = {
              "NUL/high bytes/prefixes, nested sequences, address sets, a closure, and DWARF values: the same DIE via three import routes, raw and route-less, units, "
              "attributes, abbreviations, symbols, location elements, the same file opened twice); Python then checks trichotomy, reflexivity, symmetry, transitivity "
              "over all triples, converse, alias agreement cell by cell, cross-type consistency, by-value order of arithmetic domains, bytewise strings, length-first sequences."
-             " The pool holds constants 0-3 of every family the vocabulary offers (families taken from the words), closures with captured environments, strings differing only after a NUL, address sets 2^63 apart, location operations, and unit roots reached through different imports; cell (i,i) compares two copies of every value.",
+             " The pool holds constants 0-3 of every family the vocabulary offers (families taken from the words), closures with captured environments, strings differing only after a NUL, address sets 2^63 apart, location operations, and unit roots reached through different imports; cell (i,i) compares two copies of every value."
+             ' The pool holds DIEs that came in through two and three nested imports and symbols of two files of different machines.',
         note="Laws are stated on relations, never on a particular order of unrelated values (which is by object address).  The whole matrix is computed in one process. "
              "Known finding S2 (route-less DIE 'template' equality) is matched by its exact triple pattern.",
         design="DESIGN.md 5-C09"),
@@ -111,7 +116,8 @@ CHECKS = {
              "the model's reachable set (each ==-class once), E+ must equal distinct(E E*), E? must equal (E,), E**, E+*, E*+ must collapse, results for "
              "several inputs must be the union of the single-input results, no stack may appear twice for one input, and every run must finish within a "
              "fuel budget (non-termination is decided in logical steps).  DWARF: child*, parent*, @AT_type* ... from every DIE of the sample files."
-             " Bodies include mixed value types in one slot, empty alternatives (X?, (X,)), closure values lying below the working slots; two closures in a row and X*? / X+? are compared with the model.",
+             " Bodies include mixed value types in one slot, empty alternatives (X?, (X,)), closure values lying below the working slots; two closures in a row and X*? / X+? are compared with the model."
+             ' What follows a closure suffix is written with and without a blank (`E+ 1`, `E+1`): same result.',
         note="Unbounded termination is restated as bounded progress on finite graphs; infinite reachable sets (1+) are outside the statement and never generated.",
         design="DESIGN.md 5-C10"),
     "C11": dict(
@@ -121,7 +127,8 @@ CHECKS = {
              "nested/heterogeneous sequences, a block) at stack depths 0-6 reached through direct pushes, push/drop detours, let bindings, id-block scopes and the API "
              "input stack with arbitrary positions; results (values, domains, positions), diagnostics and raised errors are compared with the list/byte-string/integer "
              "model, and across histories.  H3 recomputes the cached type profile after every push/pop/drop/copy of every stack in the run."
-             " Histories also include other live copies of the operands (alias), operand tuples of other types before and after (stream) and operands with non-zero positions.",
+             " Histories also include other live copies of the operands (alias), operand tuples of other types before and after (stream) and operands with non-zero positions."
+             ' Regular expressions POSIX requires regcomp to refuse are judged (a diagnostic and no result for every stack), every cell is also run with the same operands three times in a row, and needles with a repeating beginning are placed inside failed partial matches.',
         note="?match is judged on a portable ERE subset; cross-type/cross-domain order cells are skipped.  Arity-2 pairs are sampled in the quick tier, exhaustive in thorough.",
         design="DESIGN.md 5-C11"),
     "C12": dict(
@@ -132,7 +139,8 @@ CHECKS = {
              "result is live); the serialised outcome of every pull must equal the corresponding element of the sequence a freshly started process yields for "
              "the same text and input, and the input stack must be unchanged.  All ordered pairs of texts with parser-side state are compiled in one process; "
              "a Dwarf value is reused across interleaved executions of producers with internal caches."
-             " DWARF queries are abandoned after k pulls and followed by full runs on the same handle; values kept across executions must stay unchanged; an execution that raises and refused compiles at the nesting limits precede other compiles and runs.",
+             " DWARF queries are abandoned after k pulls and followed by full runs on the same handle; values kept across executions must stay unchanged; an execution that raises and refused compiles at the nesting limits precede other compiles and runs."
+             ' Also: 6-16 result sets of one query parked deep inside recursive closure applications beside one more complete execution, all resumed afterwards; and the same text compiled before and after its vocabulary object grew (core words, then DWARF words added).',
         note="Assumes determinism of a fresh process as the reference.  Both sides are the real engine.",
         design="DESIGN.md 5-C12"),
     "C13": dict(
@@ -142,7 +150,8 @@ CHECKS = {
              "is injected at every one of its first 40 state accesses (the step budget throws out of the engine), every token of generated queries is deleted in turn "
              "and the rejected queries leak-checked separately from accepted ones, DWARF producers are abandoned on the sample files; sanitizer reports and hook "
              "aborts are fatal, LeakSanitizer is polled after batches whose API objects were all destroyed.  All other properties' checks run on the same build."
-             " Also: byte-level mutants, every vocabulary word and back-tick form on stacks of depth 0-5, every core word on operand tuples in leak-checked processes.",
+             " Also: byte-level mutants, every vocabulary word and back-tick form on stacks of depth 0-5, every core word on operand tuples in leak-checked processes."
+             ' Values that outlive the query that made them (closures with captured values, in sequences, in other closures; directly, from kept copies, re-wrapped by a second destroyed query) are applied, copied, compared and formatted by other queries; sequences with elements of every type are lined up against each other by every comparing word.',
         note="ASan misses intra-object overflows and reuse after quarantine; memcheck and libFuzzer are thorough-only.  Known finding F8 (rejected queries leak under yyparse/yylex) is matched by allocation site.",
         design="DESIGN.md 5-C13"),
     "C14": dict(
@@ -153,7 +162,8 @@ CHECKS = {
              "parsed through zw_query_parse_len from an exact-size heap block (ASan sees any read past the length), through zw_query_parse, and with explicit "
              "lengths shorter than the buffer; accepted queries are executed under a step budget; run-time failures are placed at a chosen pull index; a sample "
              "goes through the CLI (-e, -f incl. NUL bytes, positional) where rejected or raising queries must end with a message and status 2."
-             " Also: texts around the generated parser's stack limit and nesting probes per construct; the fallible calls of libzwerg-dw.h on missing, empty, truncated and DWARF-less files; every value the driver serialises is read through the public accessors and compared with the internals.",
+             " Also: texts around the generated parser's stack limit and nesting probes per construct; the fallible calls of libzwerg-dw.h on missing, empty, truncated and DWARF-less files; every value the driver serialises is read through the public accessors and compared with the internals."
+             ' Sample files with a damaged line table are opened and every query is run twice per handle (the second failure of a cached libdw lookup carries no error code).',
         note="A hang is a missing reply within 20 s twice in a row under a 20000-step budget.",
         design="DESIGN.md 5-C14"),
     "C15": dict(
@@ -163,7 +173,8 @@ CHECKS = {
              "alternative escape spellings, split string literals, redundant parentheses, and rewritten by the documented equivalences (%s/%d/%x/%o/%b vs %( %), "
              "E? vs (E,), if vs (?(C) A, !(C) B), ?(E) vs ([E] != []), infix vs the let form), and compiled without tree::simplify; compile verdict and "
              "results must be identical.  Raw strings are compared with their spelled-out normal literals."
-             " Also: 1600 generated split literals with raw and cooked segments and every gap, infix operands binding names, and the directives against their expansions on DWARF values.",
+             " Also: 1600 generated split literals with raw and cooked segments and every gap, infix operands binding names, and the directives against their expansions on DWARF values."
+             " Layout variants include 'no blank where two tokens cannot merge'; programs include equal stacks in a row and ?( ) / !( ) around assertion-only bodies.",
         note="Both sides are runs of the engine; sequence equality for layout/spelling/parentheses/simplify, multiset equality for the structural equivalences.",
         design="DESIGN.md 5-C15"),
     "C16": dict(
@@ -172,7 +183,8 @@ CHECKS = {
         text="covdrv links the repository's coverage.cc and compares every add/remove/is_covered/is_overlap/intersect/find_holes/add_all/remove_all/== "
              "outcome with a bitmask model for every subset of a 10-12 address universe at four bases (0, 2^32, 2^63, top of space) -- exhaustive for the "
              "one-step transition relation on canonical states -- plus long random sequences; zwdrv evaluates random aset expressions and all aset words "
-             "against a Python set model (values, positions, domains, rendering, equality of differently built equal sets). H4 asserts canonical form inside the library.",
+             "against a Python set model (values, positions, domains, rendering, equality of differently built equal sets). H4 asserts canonical form inside the library."
+             ' A wide-interval stage (operands anywhere in [0, 2^64-1], either order) is judged by an interval-list model.',
         note="Scoped, as the statement is, to ranges ending at or below 2^64-1. Exhaustive only within the small universe; larger sets are sampled.",
         design="DESIGN.md 5-C16"),
     "C17": dict(
@@ -196,7 +208,8 @@ CHECKS = {
              "read by a Python struct reader; `symbol` must yield every entry once, in order, numbered from zero, with equal name/value/address/size/type/binding/"
              "visibility, type and binding rendered under the name elf.h gives that code for the file's machine; machine-specific codes of different machines must "
              "never compare equal, common codes must."
-             " Also: sizes and values up to 2^64-1, one compiled query over files of different machines, `ar` archives of generated members, and renderings relative to elf.h range markers.",
+             " Also: sizes and values up to 2^64-1, one compiled query over files of different machines, `ar` archives of generated members, and renderings relative to elf.h range markers."
+             " The command line's own symbol line is compared for files of 2-4 machines listed in one run, in both orders.",
         note="Values of symbols defined in sections of ET_REL files are relocated by libdwfl and not judged.",
         design="DESIGN.md 5-C18"),
     "C19": dict(
@@ -206,7 +219,8 @@ CHECKS = {
              "run-time errors after k results, soft errors; 0-3 files of kinds valid/second valid/nonexistent/directory/non-ELF; 0-2 -a/--a arguments yielding 0-3 values) "
              "are compared with a prediction computed from the library's own answers for the same query on every argument combination: exit status, stdout byte for "
              "byte (records in row-major order, headers, --- separators, -c counts), required/forbidden driver diagnostics on stderr."
-             " Printed records are predicted for every value type except ELF symbols and abbreviation values (DIEs with attributes, attributes with one / several / no values, units, location expressions, address sets, sequences, the Dwarf value) from facts obtained from the library; under -c the count lines next to a raising combination are exact; queries of several lines and hostile -a literals are included.",
+             " Printed records are predicted for every value type except ELF symbols and abbreviation values (DIEs with attributes, attributes with one / several / no values, units, location expressions, address sets, sequences, the Dwarf value) from facts obtained from the library; under -c the count lines next to a raising combination are exact; queries of several lines and hostile -a literals are included."
+             ' ELF symbol lines and sequence-valued --a arguments (shown in brief form in the header) are predicted too.',
         note="Records are predicted for integer/string results only; the -c line of a combination that raised is not judged.",
         design="DESIGN.md 5-C19"),
     "C20": dict(
